@@ -276,3 +276,21 @@ Print Assumptions gen_C10_rateLimit.
 Print Assumptions C10_fresh.
 Print Assumptions C10_fresh_oracle.
 Print Assumptions C10_fresh_tolerance.
+
+(* generated-code tie, stage 6: write.  Gen/GoFuncs.v holds the Gallina TRANSLATION of the Go body of
+   the write method of Conn (client/connection.go): inputs are the receiver fields read (badness,
+   cfg.Flood, lastsent), the line, the two clock readings of the rateLimit call and two ORACLES (the
+   results of conn.io.WriteString and conn.io.Flush); outputs are the fields written and three
+   effect channels — the durations waited for with time.After, the I/O calls in order, the
+   OBSERVED logging calls — and the error.  It is equal to GenEqWrite.write_spec for every input
+   (Proofs/GenEqWrite.v), and the flood aspect of that is Flood.write_delay: the state written
+   back and the single sleep (none when the delay is 0), whatever the I/O calls return. *)
+From Verif Require Import GenEqWrite.
+Theorem gen_C10_write : forall flood bad last line a a' iow ioe,
+  go_client_Conn_write bad flood last line a a' iow ioe
+  = Ok (write_spec flood bad last line a a' iow ioe)
+  /\ (let r := write_spec flood bad last line a a' iow ioe in
+      let '(st', t) := write_delay flood {| fs_bad := bad; fs_last := last |} a a' (len line) in
+      ws_state r = (fs_bad st', fs_last st') /\ ws_sleeps r = (if t =? 0 then [] else [t])).
+Proof. intros. split; [apply go_write_eq|apply write_spec_flood]. Qed.
+Print Assumptions gen_C10_write.
